@@ -369,6 +369,12 @@ def plan_text(pid, tier, seed):
     # light sweep over all 506 layouts
     gens.append(dict(name="textall", profile="unchecked", bin="text", dom="big", per_shard=2500,
                      args=["--topic", "ties,dec,radix" if pid == "C08" else "fmt", "--all", "--tier", "quick", "--seed", str(seed)]))
+    # under debug assertions + overflow checks as well ("no input makes the parser panic", "no value or flag combination panics"):
+    # the 8- and 16-bit layouts of the main corpus and the all-layout sweep, other random choices (seed + 1)
+    gens.append(dict(name="textc", profile="checked", bin="text", dom="big", per_shard=2500 if pid == "C09" else 1500,
+                     args=["--topic", topics, "--tier", "quick", "--seed", str(seed + 1), "--widths", "8,16"]))
+    gens.append(dict(name="textallc", profile="checked", bin="text", dom="big", per_shard=2500,
+                     args=["--topic", "ties,dec,radix" if pid == "C08" else "fmt", "--all", "--tier", "quick", "--seed", str(seed + 1)]))
     rules = {
         "C08": "106 layouts x radix 10/2/8/16: (a) tokeniser: every string of length <= 3 (thorough 5) over the alphabet "
                "{+,-,.,0,1,7,9,a,x,space} on two layouts, a list of 70 malformed / edge strings (empty, signs only, two points, "
@@ -390,9 +396,10 @@ def plan_text(pid, tier, seed):
         gens.append(dict(name="tlcties", profile="unchecked", bin="text", dom="big", per_shard=1500, replayable=False,
                          args=["--replay", os.path.join(core.WORK, pid, "tie_literals.ndjson")]))
     return dict(
-        bins=["text"], profiles=["unchecked"], gens=gens, designs=[], pre_gen=pre,
+        bins=["text"], profiles=["unchecked", "checked"], gens=gens, designs=[], pre_gen=pre,
         nontrivial=lambda line: '"a":[0],' not in line and '"s":[]' not in line,
-        rule=rules[pid] + " Plus a light sweep (a few literals / values per layout) over ALL 506 layouts. "
+        rule=rules[pid] + " Plus a light sweep (a few literals / values per layout) over ALL 506 layouts; the 8/16-bit part of the corpus "
+             "and the sweep are recorded under the checked build profile as well. "
              "Non-trivial: value / literal not empty or zero; distinct by event content.",
         assumptions=["TLC, BigInt.tla and the harness's JSON encoders are trusted",
                      "format strings are compile-time in Rust: 14 flag templates x 6 traits x {precision, none} are instantiated; width and "
